@@ -168,3 +168,16 @@ Definition zcond_canonical (c : zcond) : bool :=
 
 Definition aligned_types_ok (l : list (string * string)) : bool :=
   negb (Nat.eqb (length l) 0) && forallb (fun q => String.eqb (fst q) (snd q) && negb (String.eqb (fst q) "?")) l.
+
+(** ** Macro hygiene: no caller code inside a macro's [unsafe] block
+
+    [unsafe] blocks are not hygienic: caller tokens that a [macro_rules!] transcriber pastes inside its
+    own [unsafe { .. }] are compiled in an unsafe context, so a SAFE program could call [Gc::from_ptr],
+    [cast], [assume_init] .. through the macro and conjure a pointer.  Fragments that can carry
+    executable caller code are [expr], [block], [stmt], [tt], [item], [path], [pat_param]/[pat] (const
+    patterns are paths, harmless) -- we forbid the first six plus an unbound name; [ident], [ty],
+    [lifetime], [literal], [vis], [meta] cannot contain an expression evaluated in that context. *)
+Definition code_fragments : list string := ["expr"; "block"; "stmt"; "tt"; "item"; "path"; "?"].
+
+Definition metavar_harmless (e : (string * string) * string) : bool :=
+  negb (existsb (String.eqb (snd e)) code_fragments).
